@@ -3,7 +3,7 @@
    position `start` (senc handed over by the decoder as per-sample IVs / sub-sample lists).  Definitions only. *)
 From V.lib Require Import Base.
 From V.c07 Require Import C07Model.
-From V.c06 Require Import C06Model.
+From V.c06 Require Import C06Model C06SencModel.
 
 Record cfrag := mkC { cf_children : list mchild; cf_samples : list (list N) }.
 Record efrag := mkEF { ef_frag : frag; ef_ivs : list (list N); ef_subs : list (list ssp);
@@ -29,6 +29,24 @@ Section Frag.
                 end);
     do z <- saiz_of saiz_empty encs;
     do s <- senc_of senc_empty encs;
+    do entries <- senc_entries s 0 (N.to_nat (sn_count s));
+    let senc_sz := 16 + sumN (map (fun e => lenN e) entries) in
+    Ok (mkEF (layout start (add_enc_boxes (cf_children f) (saiz_box_size z) senc_sz ids) mdat_hdr)
+             (decoded_ivs encs) (decoded_subs encs) (map e_data encs)).
+
+  (* the same with SencBox.AddSample in its repaired text (C06SencModel.senc_add_r: one sub-sample table per sample
+     once one sample has a map): succeeds also on fragments mixing samples with and without protection ranges *)
+  Definition encrypt_frag_r (sch : scheme) (key iv : list N) (cb sb : N) (start mdat_hdr ids : N) (f : cfrag)
+    : res efrag :=
+    let iv := pad_iv iv in
+    if negb (lenN iv =? 16) then Err else
+    do encs <- (match sch with
+                | Cenc => encrypt_samples_cenc E protfunc key iv (cf_samples f)
+                | Cbcs => encrypt_samples_cbcs E D protfunc key iv cb sb (cf_samples f)
+                | SchemeOther => Err
+                end);
+    do z <- saiz_of saiz_empty encs;
+    do s <- senc_of_r senc_empty encs;
     do entries <- senc_entries s 0 (N.to_nat (sn_count s));
     let senc_sz := 16 + sumN (map (fun e => lenN e) entries) in
     Ok (mkEF (layout start (add_enc_boxes (cf_children f) (saiz_box_size z) senc_sz ids) mdat_hdr)
